@@ -301,6 +301,35 @@ fn edits_for(base: &Value, rng: &mut Rng, thorough: bool) -> Vec<FileEdit> {
         ann(&mut v).swap(idx[0], *idx.last().unwrap());
         push("annotation decommitment swapped", format!("first and last {what} lines swapped"), Mark::WellFormed, v);
     }
+    // a file with 12 FRI layers (two-digit layer numbers): every layer's data must stay with its layer
+    {
+        let mut v = base.clone();
+        v["proof_parameters"]["stark"]["fri"]["fri_step_list"] = json!([0, 1, 1, 1, 1, 1, 1, 1, 1, 1, 1, 1]);
+        let lines: Vec<Value> = ann(&mut v)
+            .iter()
+            .filter(|l| {
+                let t = l.as_str().unwrap_or("");
+                !(t.starts_with("P->V") && (t.contains("/STARK/FRI/Commitment/Layer ") || (t.contains("/STARK/FRI/Decommitment/Layer ") && !t.contains("/Layer 0/"))))
+            })
+            .cloned()
+            .collect();
+        let mut out: Vec<Value> = vec![];
+        for l in lines {
+            if l.as_str().unwrap_or("").contains("FRI/Commitment/Last Layer") {
+                for k in 1..=11 {
+                    out.push(json!(format!("P->V[0:32]: /cpu air/STARK/FRI/Commitment/Layer {k}: Commitment: Hash(0x{k:x}c0ffee)")));
+                }
+            }
+            out.push(l);
+        }
+        for k in 1..=11 {
+            out.push(json!(format!("P->V[0:32]: /cpu air/STARK/FRI/Decommitment/Layer {k}: Row {k}, Column 0: Field Element(0x{k:x}0100)")));
+            out.push(json!(format!("P->V[0:32]: /cpu air/STARK/FRI/Decommitment/Layer {k}: Row {k}, Column 1: Field Element(0x{k:x}0101)")));
+            out.push(json!(format!("P->V[0:32]: /cpu air/STARK/FRI/Decommitment/Layer {k}: For node {}: Hash(0x{k:x}0200)", k + 100)));
+        }
+        v["annotations"] = Value::Array(out);
+        push("annotation 12 FRI layers", "step list and annotations re-written to 12 FRI layers with distinct per-layer data".into(), Mark::WellFormed, v);
+    }
     {
         let mut v = base.clone();
         ann(&mut v).insert(5, json!("P->V[0:32]: /some other protocol/STARK/Original/Commit on Trace: Commitment: Hash(0x1234)"));
